@@ -115,6 +115,7 @@ func (E *Engine) call(m *Machine, f *Frame, x *ssa.Call, work *[]*Machine, onEnd
 	if cc.IsInvoke() {
 		recv := m.val(f, cc.Value)
 		f.Env[x] = E.invoke(m, f, cc, recv, args)
+		E.applyHints(m, f, cc)
 		return false
 	}
 	if fn := cc.StaticCallee(); fn != nil {
@@ -210,4 +211,26 @@ func sigResults(fn *ssa.Function) []types.Type {
 		out = append(out, r.At(i).Type())
 	}
 	return out
+}
+
+// applyHints assumes the lemma-instance hints registered for the call site just executed. Hints may only be
+// conjunctions of use_* terms (tautologies by the hint axiom); they exist to name lemma witnesses.
+func (E *Engine) applyHints(m *Machine, f *Frame, cc *ssa.CallCommon) {
+	if m.Top == nil || m.Top.C == nil || len(m.Top.C.Hints) == 0 {
+		return
+	}
+	site := m.siteName(f, calleeShort(cc))
+	for _, h := range m.Top.C.Hints {
+		if h.Site != site {
+			continue
+		}
+		ev := &Evaluator{E: E, M: m, Frame: f, Old: m.Entry, Lets: m.Top.Lets}
+		t := ev.EvalBool(h.Expr, h.Src)
+		for _, part := range splitSexp(strings.TrimSuffix(strings.TrimPrefix(t.S, "(and "), ")")) {
+			if !strings.HasPrefix(part, "(hint ") && !strings.HasPrefix(t.S, "(hint ") {
+				panic(specErr{"hint at " + site + " is not a conjunction of use_* terms"})
+			}
+		}
+		m.AssumeT(t)
+	}
 }
